@@ -482,9 +482,264 @@ def run(ctx: common.Context) -> None:
             d = dict(detail)
             d["class"] = cls
             ctx.report(f"C14 {cls}", what + f" [op={detail['case']['op']} cache={detail['case']['cache']} pool_exists={detail['case']['pool_exists']} fault_at={detail['case']['fault_at_call']}]", d, replay if any(r in cls for r in replayable) else None)
+    run_interleavings(ctx)
     ctx.bounds = {"operations": OPS, "cache_path": CACHE_KINDS, "pool_file": ["absent", "data"], "contents": "symbolic (first MiB, rest) per file", "lock": f"EAGAIN for k attempts, k symbolic in [0, {TIMEOUT + 1}], update_pool_timeout={TIMEOUT}", "fault": f"none or OSError at the f-th file system call, f < {_cfg['max_fault']}"}
     ctx.assumptions = [
         "fcntl.lockf exclusion between processes and release on process death are kernel properties: assumed, not checked; remote transfers have no locks in the code and are excluded",
         "model file system for pool.os/shutil/open, crypto.hash_file returns the content it is asked to hash (hash equality = content equality of the hashed part)",
     ]
     ctx.coverage["explanation"] = "symbolic execution of the real transfer operations and image_lock over a model file system; contents, lock contention and the fault position are solver variables; exactness is a validity query over the content terms"
+
+
+# ---------------------------------------------------------------------------
+# interleavings of several processes on one pool file (lock discipline over an inode-level lock model)
+
+import threading
+
+
+class _Kill(BaseException):
+    pass
+
+
+class Procs:
+    """Runs n real transfer operations as baton-passing threads; the solver picks who continues at every file system call."""
+
+    def __init__(self, eng: symx.Engine, n: int) -> None:
+        self.eng = eng
+        self.cv = threading.Condition()
+        self.turn: Any = "sched"
+        self.alive: dict[int, bool] = {}
+        self.error: dict[int, BaseException] = {}
+        self.killed = False
+        self.local = threading.local()
+        self.steps = 0
+
+    def pid(self) -> int:
+        return getattr(self.local, "pid", -1)
+
+    def yield_point(self) -> None:
+        pid = self.pid()
+        if pid < 0:
+            return
+        with self.cv:
+            self.turn = "sched"
+            self.cv.notify_all()
+            while self.turn != pid:
+                self.cv.wait()
+            if self.killed:
+                raise _Kill()
+
+    def _body(self, pid: int, fn: Any) -> None:
+        self.local.pid = pid
+        with self.cv:
+            while self.turn != pid:
+                self.cv.wait()
+        try:
+            if not self.killed:
+                fn()
+        except _Kill:
+            pass
+        except BaseException as e:  # noqa: B036 - symx control flow must reach the main thread
+            self.error[pid] = e
+        finally:
+            with self.cv:
+                self.alive[pid] = False
+                self.turn = "sched"
+                self.cv.notify_all()
+
+    def run(self, bodies: list[Any]) -> None:
+        threads = []
+        for pid, fn in enumerate(bodies):
+            self.alive[pid] = True
+            t = threading.Thread(target=self._body, args=(pid, fn), daemon=True)
+            threads.append(t)
+            t.start()
+        failure: BaseException | None = None
+        try:
+            while any(self.alive.values()):
+                live = [p for p, a in self.alive.items() if a]
+                idx = symx.choose(len(live), f"proc_step{self.steps}")
+                self.steps += 1
+                if self.steps > 400:
+                    raise symx.Abort("interleaving step bound")
+                pid = live[idx]
+                with self.cv:
+                    self.turn = pid
+                    self.cv.notify_all()
+                    while self.turn != "sched":
+                        self.cv.wait()
+                for p, e in list(self.error.items()):
+                    if isinstance(e, (symx.Abort, symx.Violation, symx.Inconclusive)):
+                        raise e
+        except BaseException as e:  # noqa: B036
+            failure = e
+        # release every remaining thread so that it ends
+        self.killed = True
+        for pid in list(self.alive):
+            while self.alive[pid]:
+                with self.cv:
+                    self.turn = pid
+                    self.cv.notify_all()
+                    while self.turn != "sched" and self.alive[pid]:
+                        self.cv.wait(0.05)
+        for t in threads:
+            t.join(1)
+        if failure is not None:
+            raise failure
+
+
+MP_OPS = ["download_local", "upload_local", "delete_local"]
+_mp = {"procs": 2}
+
+
+def _mp_factory():
+    from avocado_i2n.states import pool
+    from virttest.utils_params import Params
+
+    col = common.Collector()
+    saved = {k: getattr(pool, k, None) for k in ("os", "shutil", "fcntl", "time", "crypto")}
+
+    def fn(eng: symx.Engine) -> Any:
+        n = _mp["procs"]
+        ops = [MP_OPS[eng.pick(len(MP_OPS), f"op{i}")] for i in range(n)]
+        procs = Procs(eng, n)
+        w = World(eng, -1, z3.IntVal(0))
+        w.files[POOL] = ("data", Content("pool"))
+        caches = [f"/cache{i}/vm1/image1/state.qcow2" for i in range(n)]
+        for i, c in enumerate(caches):
+            w.files[c] = ("data", Content(f"cache{i}"))
+        # inode-level lock model
+        inode_of: dict[str, int] = {}
+        counter = [0]
+        locked: dict[int, int] = {}
+        in_cs: dict[int, str] = {}
+        events: list[str] = []
+        mods = make_modules(w)
+        real_fs_call = w.fs_call
+
+        def fs_call(what: str, path: str, mutating: bool) -> None:
+            # operations on a process's private cache commute with everything: no scheduling point
+            if path.startswith("/pool") or what == "copy":
+                procs.yield_point()
+            pid = procs.pid()
+            if mutating or what == "read":
+                if path == POOL or (what == "copy"):
+                    others = [p for p in in_cs if p != pid]
+                    if pid not in in_cs:
+                        raise symx.Violation(f"process {pid} touches the pool file ({what}) outside its critical section", {"class": "mp unlocked access", "ops": ops, "events": events})
+                    if others:
+                        raise symx.Violation(f"processes {pid} and {others} are inside the critical section of the same pool file at once ({what})", {"class": "mp overlapping critical sections", "ops": ops, "events": events})
+            if what == "unlink" and path == LOCK:
+                inode_of.pop(LOCK, None)
+                events.append(f"p{pid}:unlink-lockfile")
+            events.append(f"p{pid}:{what}:{posixpath.basename(path)}")
+            real_fs_call(what, path, mutating)
+
+        w.fs_call = fs_call  # type: ignore[method-assign]
+
+        class FD:
+            def __init__(self, name: str, inode: int) -> None:
+                self.name, self.inode = name, inode
+
+            def __enter__(self) -> "FD":
+                return self
+
+            def __exit__(self, *a: Any) -> bool:
+                return False
+
+        def fake_open(p: str, mode: str = "r", *a: Any, **k: Any) -> FD:
+            procs.yield_point()
+            if p not in inode_of:
+                counter[0] += 1
+                inode_of[p] = counter[0]
+                w.files[p] = ("data", Content("lockfile"))
+            return FD(p, inode_of[p])
+
+        Fcntl = mods["fcntl"]
+
+        class MPFcntl:
+            LOCK_EX, LOCK_NB, LOCK_UN, LOCK_SH = Fcntl.LOCK_EX, Fcntl.LOCK_NB, Fcntl.LOCK_UN, Fcntl.LOCK_SH
+
+            @staticmethod
+            def lockf(fd: Any, flags: int) -> None:
+                pid = procs.pid()
+                if flags & MPFcntl.LOCK_UN:
+                    if locked.get(fd.inode) == pid:
+                        del locked[fd.inode]
+                    in_cs.pop(pid, None)
+                    events.append(f"p{pid}:unlock")
+                    return
+                procs.yield_point()
+                holder = locked.get(fd.inode)
+                if holder is not None and holder != pid:
+                    events.append(f"p{pid}:busy")
+                    raise IOError(errno.EAGAIN, "busy")
+                locked[fd.inode] = pid
+                in_cs[pid] = fd.name
+                events.append(f"p{pid}:lock(inode {fd.inode})")
+
+        class MPTime:
+            @staticmethod
+            def sleep(t: Any) -> None:
+                procs.yield_point()
+
+        mods["fcntl"], mods["open"], mods["time"] = MPFcntl, fake_open, MPTime
+        for k, v in mods.items():
+            setattr(pool, k, v)
+        pool.SKIP_LOCKS = False
+        params = Params({"update_pool_timeout": "2"})
+        outcomes: dict[int, str] = {}
+
+        def body(i: int):
+            def run_op() -> None:
+                f = getattr(pool.TransferOps, ops[i])
+                try:
+                    f(POOL, params) if ops[i].startswith("delete") else f(caches[i], POOL, params)
+                    outcomes[i] = "done"
+                except (OSError, RuntimeError) as e:
+                    outcomes[i] = type(e).__name__
+
+            return run_op
+
+        try:
+            procs.run([body(i) for i in range(n)])
+        finally:
+            for k in ("os", "shutil", "fcntl", "time", "crypto"):
+                setattr(pool, k, saved[k])
+            if "open" in pool.__dict__:
+                del pool.__dict__["open"]
+        col.count("interleavings")
+        if locked:
+            raise symx.Violation(f"a lock is still held after all processes ended: {locked}", {"class": "mp lock leaked", "ops": ops, "events": events})
+        if any("busy" in e for e in events):
+            col.count("with_contention")
+        if len(col.samples) < 2 and any("busy" in e for e in events):
+            col.samples.append({"processes": ops, "events": events, "outcomes": outcomes})
+        return None
+
+    def on_path(eng: symx.Engine, outcome: str, payload: Any) -> None:
+        if outcome == "violation":
+            col.violations.append((payload.what, payload.detail["class"], payload.detail))
+
+    def collect() -> Any:
+        col.functions = set(common.TRACER.seen)
+        return col
+
+    return fn, on_path, collect
+
+
+def run_interleavings(ctx: common.Context) -> None:
+    _mp["procs"] = 3 if ctx.thorough else 2
+    exhausted, stats, collected, err = symx.explore_parallel(_mp_factory, seed=ctx.seed, split_depth=4, deadline=ctx.deadline(100, 900))
+    ctx.add_stats(stats)
+    counters = common.merge_collected(ctx, collected)
+    ctx.part("process interleavings", exhausted=exhausted, paths=stats.paths, counters=counters, bounds={"processes": _mp["procs"], "operations": MP_OPS, "scheduling_points": "every file system call, lock attempt and sleep", "lock_model": "lockf excludes per inode; a removed and re-created lock file is a new inode", "update_pool_timeout": 2})
+    if err:
+        ctx.note_inconclusive(err)
+    if not exhausted:
+        ctx.exhaustive = False
+    if counters.get("with_contention", 0) == 0:
+        ctx.note_inconclusive("vacuous: no interleaving with lock contention")
+    for c in collected:
+        for what, cls, detail in c.violations:
+            ctx.report(f"C14 {cls}", what + f" [processes={detail['ops']} events={detail['events'][-8:]}]", {"case": {"op": "+".join(detail["ops"]), "cache": "data", "pool_exists": True, "fault_at_call": -1}, "class": cls, **detail}, None)
